@@ -908,6 +908,15 @@ def registry2(R):
     R["textfn(chunk column)"] = (lambda ch, j, sel, name: chunk_column_fn(ch, j, sel, name), ["chunk+col+fn"])
     R["replace(chunk, field) then reread"] = (lambda ch, j, bump: replace_then_reread(ch, j, bump), ["chunk+field"])
     R["selection: field, write, fields"] = (lambda ch, sel, j: field_write_fields(ch, sel, j), ["chunk+sel+field"])
+    R["Genome.from_dict(d).with_ignored_added"] = (lambda d, names: snap(bnp.Genome.from_dict(d).with_ignored_added(names)), ["sizes_dict+names"])
+    R["genome.with_ignored_added"] = (lambda g, names: snap(g.with_ignored_added(names)), ["genome_u+names"])
+    R["genome.with_ignored_added.get_intervals"] = (lambda g, names, t: snap(g.with_ignored_added(names).get_intervals(t)), ["genome_u+names+intervals"])
+    R["GenomeContext.from_dict(d) methods"] = (lambda d, names: (lambda gc: (snap(gc.chrom_sizes, result=True), list(gc.chromosome_order()) if hasattr(gc, "chromosome_order") else None,
+                                                 snap(gc.with_ignored_added(names)), snap(gc.chrom_sizes, result=True)))(
+        __import__("bionumpy.genomic_data.genome_context", fromlist=["x"]).GenomeContext.from_dict(d)), ["sizes_dict+names"])
+    R["genome_context.is_included/mask_data"] = (lambda g, t: (lambda gc: (gc.is_included(t.chromosome), snap(gc.mask_data(t))))(g.get_genome_context()), ["genome_u+intervals"])
+    R["Genome.from_dict(d, filter/sort kwargs)"] = (lambda d: (snap(bnp.Genome.from_dict(d, filter_function=None)) if "filter_function" in __import__("inspect").signature(bnp.Genome.from_dict).parameters else None,
+                                                      snap(bnp.Genome.from_dict(d, sort_names=True)) if "sort_names" in __import__("inspect").signature(bnp.Genome.from_dict).parameters else None), ["sizes_dict_u"])
     R["chunk.program"] = (lambda ch, prog: run_chunk_program(ch, prog), ["chunk+program"])
     R["gi.clip(out of bounds)"] = (lambda gi: snap(gi.clip()), ["gintervals_oob"])
     R["gi.extended_to_size(oob)"] = (lambda gi, n: snap(gi.extended_to_size(n)), ["gintervals_oob+len"])
@@ -1496,6 +1505,20 @@ def gen_args(kind, rng):
         return [{"k": "str", "s": _dna(rng, rng.choice([4, 9, 12])), "enc": "DNA"}, py(rng.choice([1, 2, 3]))]
     if kind == "chunk+col+fn":
         return [file_spec(rng), py(rng.randrange(6)), py(rng.choice(["none", "none", "slice", "mask", "ints"])), py(rng.choice(TEXTFNS))]
+    if kind in ("sizes_dict+names", "sizes_dict_u", "genome_u+names", "genome_u+names+intervals", "genome_u+intervals"):
+        extra = {"chrUn_1": 7, "chrEBV": 9, "chr1_alt": 4, "chrM": 16}
+        sizes = dict(SIZES, **{k: v for k, v in extra.items() if rng.random() < 0.7})
+        pool = list(extra) + ["chrUn_x", "chrX"]
+        names = {"k": "py", "v": rng.sample(pool, rng.choice([0, 1, 2, 3]))}
+        if kind == "sizes_dict_u":
+            return [{"k": "dict", "v": sizes}]
+        if kind == "sizes_dict+names":
+            return [{"k": "dict", "v": sizes}, names]
+        if kind == "genome_u+names":
+            return [{"k": "genome", "sizes": sizes}, names]
+        if kind == "genome_u+intervals":
+            return [{"k": "genome", "sizes": sizes}, _intervals(rng)]
+        return [{"k": "genome", "sizes": sizes}, names, _intervals(rng, sorted_=True)]
     if kind == "chunk+sel+field":
         return [file_spec(rng, fmt=rng.choice(["bam", "bam"] + FORMATS)), py(rng.choice(["mask", "ints", "slice"])), py(rng.randrange(12))]
     if kind == "chunk+field":
@@ -1737,10 +1760,25 @@ def _observe(fn, specs, views, variant, specs2=None):
             return _observe_fresh(fn, specs, variant.split(":")[1] if ":" in variant else "slice")
         out = _observe0(fn, specs, views, variant)
         if specs2 is not None and variant in (None, "plain") and "unbuildable" not in out and "raised" not in out:
-            h = _history(fn, specs, specs2)
-            if h:
-                out["mutated"] = sorted(set(out["mutated"]) | {h})
+            for h in (_history(fn, specs, specs2), _receiver_history(fn, specs, specs2)):
+                if h:
+                    out["mutated"] = sorted(set(out["mutated"]) | {h})
         return out
+
+
+def _receiver_history(fn, specs, specs2):
+    """state kept in the first argument (the receiver of a method): after fn(recv, rest1) the call fn(recv, rest2) must return what
+    fn(fresh_recv, rest2) returns — a pure operation does not depend on what was asked of the object before"""
+    if len(specs) < 2 or len(specs) != len(specs2):
+        return None
+    try:
+        recv = build(specs[0])
+        fn(recv, *[build(s) for s in specs[1:]])
+        second = digest(snap(fn(recv, *[build(s) for s in specs2[1:]]), result=True))
+        ref = digest(snap(fn(build(specs[0]), *[build(s) for s in specs2[1:]]), result=True))
+    except Exception:
+        return None
+    return None if second == ref else "result-depends-on-an-earlier-call-on-the-same-object"
 
 
 def _history(fn, specs, specs2):
@@ -1990,6 +2028,8 @@ def finding_key(c, got, exp):
     if isinstance(got, dict) and "err" in got:
         return f"{name}:{got['err']}"
     if isinstance(got, dict) and got.get("mutated"):
+        if all(str(m).startswith("result-depends") for m in got["mutated"]):
+            return f"{name}:result-depends-on-earlier-call"
         if all(str(m).startswith("result-") for m in got["mutated"]):
             return f"{name}:result-changed-after-a-later-call"
         return f"{name}:mutates-argument"
